@@ -21,20 +21,26 @@ type Point struct {
 	index int
 }
 
+// vertex is the vertex the point refers to: the mesh's index list decides
+// which vertex primitive number i is
+func (p Point) vertex() int {
+	return p.mesh.indices[p.index]
+}
+
 func (p Point) BoundingBox(atr string) geometry.AABB {
-	return geometry.NewAABB(p.mesh.v3Data[atr][p.index], vector3.Zero[float64]())
+	return geometry.NewAABB(p.mesh.v3Data[atr][p.vertex()], vector3.Zero[float64]())
 }
 
 func (p Point) ClosestPoint(atr string, point vector3.Float64) vector3.Float64 {
-	return p.mesh.v3Data[atr][p.index]
+	return p.mesh.v3Data[atr][p.vertex()]
 }
 
 func (p Point) Clips(plane geometry.Plane, atr string) bool {
-	dist := plane.Normal().Dot(p.mesh.v3Data[atr][p.index].Sub(plane.Origin()))
+	dist := plane.Normal().Dot(p.mesh.v3Data[atr][p.vertex()].Sub(plane.Origin()))
 
 	return dist < 0
 }
 
 func (p Point) Scope(attribute string) trees.Element {
-	return scopedPoint(p.mesh.v3Data[attribute][p.index])
+	return scopedPoint(p.mesh.v3Data[attribute][p.vertex()])
 }
